@@ -9,8 +9,8 @@ from . import extract
 from .contracts import REG, Contract
 from .exprs import Bag, BuiltinRef, ClassRef, FuncRef, MethodRef
 from .state import Exc, FieldAlias, Frame, Outcome, State
-from .types import (BOOL, FLOAT, INT, NONE, STR, T, TEnum, TMap, TNone, TOpaque, TOpt, TRef, TSeq, TSet, TTuple,
-                    comps, zsort)
+from .types import (BOOL, FLOAT, INT, NONE, STR, T, TBool, TEnum, TFloat, TFP, TInt, TMap, TNone, TOpaque, TOpt, TRef,
+                    TSeq, TSet, TStr, TTuple, comps, zsort)
 from . import values as vals
 from .values import (NONEV, EngineError, V, coerce, fresh, fresh_name, mk_bool, mk_int, opt_isnone, opt_val, truth)
 
@@ -84,8 +84,9 @@ class FuncMixin:
                 out[g] = self.ct.parse(ts)
         return out
 
-    def narrow(self, st, v, t):
-        """coerce, additionally narrowing Optional[T] to T when the path condition excludes None."""
+    def narrow(self, st, v, t, box=False):
+        """coerce, additionally narrowing Optional[T] to T when the path condition excludes None.
+        box=True (calls by contract): a concrete value may be handed to a parameter of unknown type."""
         vi = v.t.inner if isinstance(v.t, TOpt) else v.t
         ti = t.inner if isinstance(t, TOpt) else t
         if isinstance(vi, TOpaque) and vi != ti and vi.nm in ("unk", "arith") + tuple(
@@ -93,6 +94,25 @@ class FuncMixin:
             # a value of unknown type passed where the callee declares a type: some value of that type
             self.note_assumed(f"opaque value passed as {t}: treated as an arbitrary value of that type")
             return fresh(t, "cast")
+        if isinstance(vi, TOpaque) and not isinstance(v.t, TOpt) and isinstance(ti, (TStr, TInt, TBool, TFP, TFloat)) \
+                and not isinstance(t, TOpt):
+            # a value of unknown type that the code has found to be a str/int/float (isinstance test) and passes on as such:
+            # its content is a fixed function of the object
+            self.note_assumed(f"opaque value used as {t}: its {t} content is an uninterpreted function of the value")
+            return V(ti, [z3.Function(f"view_{ti}{('_' + s_) if s_ else ''}", zsort(vi), so_)(v.zs[0]) for s_, so_ in comps(ti)])
+        if box and isinstance(ti, TFP) and isinstance(v.t, (TInt, TBool)) and not isinstance(t, TOpt):
+            # an int handed to a float-typed parameter stays an int in Python; its sign, zero-ness and order against
+            # other numbers are those of its correctly rounded double (magnitudes beyond the double range excluded)
+            self.note_assumed("int passed to a float-typed parameter: modelled by its correctly rounded double")
+            return vals.mk_fp(z3.fpRealToFP(vals.RNE, z3.ToReal(coerce(v, INT).z), vals.FP64))
+        if box and isinstance(ti, TOpaque) and not isinstance(t, TOpt) and not isinstance(v.t, (TOpt, TOpaque)) \
+                and isinstance(vi, (TStr, TInt, TBool, TFP, TFloat, TSeq, TSet, TMap, TTuple)) and comps(vi):
+            # a concrete value handed to a parameter of unknown type: the same value seen as an opaque object
+            box = z3.Function(f"box_{vi}", *[so_ for _, so_ in comps(vi)], zsort(ti))
+            return V(ti, [box(*v.zs)])
+        if isinstance(vi, TOpaque) and isinstance(ti, TOpaque) and vi != ti and not isinstance(v.t, TOpt) \
+                and not isinstance(t, TOpt):
+            return V(ti, [z3.Function(f"relabel_{vi.nm}_{ti.nm}", zsort(vi), zsort(ti))(v.zs[0])])
         if isinstance(vi, TRef) and isinstance(ti, TRef) and vi.cls != ti.cls and \
                 (self.ct.is_subclass(vi.cls, ti.cls) or self.ct.is_subclass(ti.cls, vi.cls)):
             # up-cast (or a down-cast the callee's dynamic dispatch implies): same reference, other static type
@@ -128,6 +148,11 @@ class FuncMixin:
         return out
 
     # ------------------------------------------------------------------ call dispatch
+    @staticmethod
+    def _fits(have, want):
+        """Exact fit of an argument type to a variant's parameter type (bool is not int here: variants are disjoint)."""
+        return type(have) is type(want) and str(have) == str(want)
+
     def call_function(self, st, fr: FuncRef, args, kw, node, is_property=False):
         module, qual = fr.module, fr.qual
         cls = None
@@ -147,6 +172,16 @@ class FuncMixin:
                     module = self.ct.classes[cls].module
                     qual = f"{cls}.{mname}"
         target = f"{module}:{qual}"
+        if con is None and fr.bound_self is None:
+            # "target@variant" contracts: the same function under several typings - pick the one the arguments fit
+            variants = [c for t, c in REG.contracts.items() if t.startswith(target + "@")]
+            if variants:
+                pos = [self.as_value(a) for a in args if isinstance(a, (V,))]
+                for c in variants:
+                    want = [self.ct.parse(ts) for ts in list(c.sig.values())[:len(pos)]]
+                    if len(want) == len(pos) and all(self._fits(a.t, w) for a, w in zip(pos, want)):
+                        con = c
+                        break
         if con is None:
             con = REG.contracts.get(target)
         try:
@@ -197,7 +232,7 @@ class FuncMixin:
                     st, v = self.bag_to_seq(st, v)
             if isinstance(v, V) and k in ptypes:
                 try:
-                    v = self.narrow(st, v, ptypes[k])
+                    v = self.narrow(st, v, ptypes[k], box=True)
                 except EngineError as e:
                     raise EngineError(f"argument {k!r} of {target}: {e}")
             locs[k] = v
